@@ -108,8 +108,148 @@ theorem addLabel_unique (labels labels' : List (Key × SymData)) (l : Label) (ad
     have := lookupKey_of_mem labels hu x.1 x.2 hx
     rw [hxk, hl] at this; cases this
 
+
+/-- where a key of the label table can come from: a label of a statement, or an `.external` declaration -/
+def Declares (stmt : Stmt) (k : Key) : Prop :=
+  (∃ l ∈ stmt.labels, upperS l.name = k) ∨ (∃ l, stmt.nucleus = .directive (.external l) ∧ upperS l.name = k)
+
+theorem addLabel_keys (labels labels' : List (Key × SymData)) (l : Label) (addr : W) (ext : Bool)
+    (h : addLabel labels l addr ext = .ok labels') : ∀ e ∈ labels', e ∈ labels ∨ e.1 = upperS l.name := by
+  unfold addLabel at h
+  dsimp only at h
+  split at h
+  · split at h
+    · cases h
+    · cases h; intro e he; exact Or.inl he
+  · cases h
+    intro e he
+    rcases List.mem_append.mp he with h1 | h1
+    · exact Or.inl h1
+    · simp only [List.mem_singleton] at h1; subst h1; exact Or.inr rfl
+
+theorem addLabels_keys (ls : List Label) (addr : W) : ∀ (m m' : List (Key × SymData)), addLabels m ls addr = .ok m' →
+    ∀ e ∈ m', e ∈ m ∨ ∃ l ∈ ls, e.1 = upperS l.name := by
+  unfold addLabels
+  induction ls with
+  | nil => intro m m' h e he; simp only [List.foldlM_nil] at h; cases h; exact Or.inl he
+  | cons x xs ih =>
+    intro m m' h e he
+    rw [List.foldlM_cons] at h
+    cases hx : addLabel m x addr false with
+    | error e0 => rw [hx] at h; cases h
+    | ok m1 =>
+      rw [hx] at h
+      rcases ih m1 m' h e he with h1 | ⟨l, hl, hk⟩
+      · rcases addLabel_keys m m1 x addr false hx e h1 with h2 | h2
+        · exact Or.inl h2
+        · exact Or.inr ⟨x, by simp, h2⟩
+      · exact Or.inr ⟨l, by simp [hl], hk⟩
+
+/-- one pass-1 step only adds keys the statement declares -/
+theorem pass1Step_keys (st st' : P1) (stmt : Stmt) (h : pass1Step st stmt = .ok st') :
+    ∀ e ∈ st'.labels, e ∈ st.labels ∨ Declares stmt e.1 := by
+  unfold pass1Step at h
+  split at h
+  · cases h
+  · rename_i labels hlab
+    split at h
+    · cases h
+    · rename_i cursor labels' rel hsp
+      have hfin : st'.labels = labels' := by
+        unfold p1Advance at h
+        split at h
+        · cases h; rfl
+        · dsimp only at h; split at h
+          · cases h
+          · cases h; rfl
+      rw [hfin]
+      -- part 1: labels of the statement
+      have h1 : ∀ e ∈ labels, e ∈ st.labels ∨ Declares stmt e.1 := by
+        unfold p1Labels at hlab
+        split at hlab
+        · cases hlab; intro e he; exact Or.inl he
+        · split at hlab
+          · cases hlab
+          · intro e he
+            rcases addLabels_keys _ _ _ _ hlab e he with h2 | ⟨l, hl, hk⟩
+            · exact Or.inl h2
+            · exact Or.inr (Or.inl ⟨l, hl, hk.symm⟩)
+      -- part 2: `.external`
+      have h2 : ∀ e ∈ labels', e ∈ labels ∨ Declares stmt e.1 := by
+        unfold p1Special at hsp
+        generalize hk : stmt.nucleus = k at hsp
+        cases k with
+        | instr i => cases hsp; intro e he; exact Or.inl he
+        | directive d =>
+          cases d with
+          | orig a => dsimp only at hsp; split at hsp <;> cases hsp; intro e he; exact Or.inl he
+          | end_ => dsimp only at hsp; split at hsp <;> cases hsp; intro e he; exact Or.inl he
+          | external l =>
+            dsimp only at hsp
+            split at hsp
+            · cases hsp
+            · rename_i m hm
+              cases hsp
+              intro e he
+              rcases addLabel_keys _ _ _ _ _ hm e he with h3 | h3
+              · exact Or.inl h3
+              · exact Or.inr (Or.inr ⟨l, hk, h3.symm⟩)
+          | fill v =>
+            cases v with
+            | off v => cases hsp; intro e he; exact Or.inl he
+            | label l =>
+              dsimp only at hsp
+              split at hsp
+              · cases hsp; intro e he; exact Or.inl he
+              · split at hsp
+                · cases hsp
+                · cases hsp; intro e he; exact Or.inl he
+          | blkw n => cases hsp; intro e he; exact Or.inl he
+          | stringz s => cases hsp; intro e he; exact Or.inl he
+      intro e he
+      rcases h2 e he with h3 | h3
+      · exact h1 e h3
+      · exact Or.inr h3
+
+/-- the label table holds no name the program does not define or declare: every entry comes from a label of some
+    statement or from an `.external` declaration -/
+theorem table_only_program_labels : ∀ (stmts : List Stmt) (st st' : P1), stmts.foldlM pass1Step st = .ok st' →
+    ∀ e ∈ st'.labels, e ∈ st.labels ∨ ∃ stmt ∈ stmts, Declares stmt e.1 := by
+  intro stmts
+  induction stmts with
+  | nil => intro st st' h e he; simp only [List.foldlM_nil] at h; cases h; exact Or.inl he
+  | cons x xs ih =>
+    intro st st' h e he
+    rw [List.foldlM_cons] at h
+    cases hx : pass1Step st x with
+    | error e0 => rw [hx] at h; cases h
+    | ok q =>
+      rw [hx] at h
+      rcases ih q st' h e he with h1 | ⟨stmt, hs, hd⟩
+      · rcases pass1Step_keys st q x hx e h1 with h2 | h2
+        · exact Or.inl h2
+        · exact Or.inr ⟨x, by simp, h2⟩
+      · exact Or.inr ⟨stmt, by simp [hs], hd⟩
+
+theorem listing_is_program_labels (stmts : List Stmt) (src : Option (List Char)) (t : SymTab) (h : pass1 stmts src = .ok t) :
+    ∀ e ∈ t.labels, ∃ stmt ∈ stmts, Declares stmt e.1 := by
+  unfold pass1 at h
+  split at h
+  · cases h
+  · rename_i st hf
+    unfold p1Finish at h
+    split at h
+    · cases h
+    · cases h
+      intro e he
+      rcases table_only_program_labels stmts (p1Init src) st hf e he with h1 | h1
+      · cases h1
+      · exact h1
+
 def obligations : List Lean.Name :=
   [``lookup_ignores_case, ``source_ignores_case, ``source_span_length, ``lookup_and_source_agree, ``lookupKey_of_mem,
-   ``mem_of_lookupKey, ``rev_lookup_candidates, ``absent_name, ``addLabel_unique, ``C01.addLabel_spec]
+   ``mem_of_lookupKey, ``rev_lookup_candidates, ``absent_name, ``addLabel_unique, ``C01.addLabel_spec,
+   ``pass1Step_keys, ``table_only_program_labels, ``listing_is_program_labels]
+
 
 end Lc3V.C23
